@@ -9,6 +9,19 @@ from qbee.node import Node
 from qbee.utils import convert_index_to_line_col
 
 
+def eval_consts(consts):
+    # A CONST whose expression cannot be evaluated (it overflows or
+    # divides by zero; the program fails at run time when it uses it)
+    # is simply not available to the debugger.
+    result = {}
+    for name, const in consts.items():
+        try:
+            result[name] = (const.type, const.eval())
+        except ArithmeticError:
+            pass
+    return result
+
+
 class RoutineType(Enum):
     SUB = 1
     FUNCTION = 2
@@ -85,10 +98,7 @@ class DebugInfo:
                 source_start_col=start_col,
                 source_end_line=end_line,
                 source_end_col=end_col,
-                local_consts={
-                    name: (const.type, const.eval())
-                    for name, const in node.routine.local_consts.items()
-                },
+                local_consts=eval_consts(node.routine.local_consts),
                 node=node,
             )
 
@@ -283,10 +293,7 @@ class DebugInfoCollector:
         self._empty_blocks.append(code_offset)
 
     def get_debug_info(self):
-        global_consts = {
-            name: (const.type, const.eval())
-            for name, const in self._global_consts.items()
-        }
+        global_consts = eval_consts(self._global_consts)
         dbg_info = DebugInfo(self._source_code,
                              self._empty_blocks,
                              self._compilation,
